@@ -44,13 +44,18 @@ ASSUMPTIONS = ['after the failing cell has been overwritten, the history '
 MIN_NONTRIVIAL = {'quick': 300, 'thorough': 6000}
 
 KINDS = ['unknown', 'call1', 'call2', 'call12', 'always', 'after-error1',
-         'after-error-always']
+         'after-error-always',
+         # the same faults ending in the exception types python code
+         # typically dies with (kind!ExceptionName)
+         'call1!NameError', 'always!UnboundLocalError', 'call12!KeyError',
+         'call1!TypeError', 'call2!AttributeError', 'always!IndexError']
 RULES = {'call1': {1}, 'call2': {2}, 'call12': {1, 2}, 'always': 'all',
          'after-error1': {1}, 'after-error-always': 'all'}
 VALUES = [0, 1, 2, 3, -1, 2.5, 10, 42, 'a', True, None, 7]
 
 
 def wrap(formula, kind):
+    kind = kind.split('!')[0]
     expr = formula[1:]
     if kind == 'unknown':
         # reference = the formula without the unknown function: a dependant
@@ -118,8 +123,11 @@ def check_case(rec, spec, site, kind, iterative, steps):
     case = dict(spec=spec, site=site, kind=kind, iterative=iterative,
                 steps=[list(s) for s in steps])
     plugin.reset()
-    if kind in RULES:
-        plugin.FAIL_ON[1] = RULES[kind]
+    if kind.split('!')[0] in RULES:
+        plugin.FAIL_ON[1] = RULES[kind.split('!')[0]]
+    if '!' in kind:
+        import builtins
+        plugin.FAIL_EXC[0] = getattr(builtins, kind.split('!')[1])
     state = dict(overwritten=False, repaired=False, retried_ok=False,
                  inputs={})
     failure = []
@@ -236,6 +244,10 @@ def check_case(rec, spec, site, kind, iterative, steps):
                          f'evaluate({addr}) raised {exc!r}'[:400])
                     return
                 must_fail = fired or (kind == 'unknown' and is_down)
+                if not must_fail and addr in dyn:
+                    # may read the failing cell through a computed reference
+                    rec.label('computed-reference-may-reach-the-site')
+                    return
                 if not must_fail:
                     fail(f'spurious-failure:{where}',
                          f'evaluate({addr}) raised {exc_key(exc)} although '
@@ -261,7 +273,10 @@ def check_case(rec, spec, site, kind, iterative, steps):
                 if not any(models.same_value(got, w) or (
                         isinstance(w, tuple) and w[:1] == ('raises',))
                         for w in olds):
-                    fail(f'wrong-value-after-fault:{where}:computed-reference',
+                    fail(('overwrite-ineffective' if addr in down and
+                          state['overwritten'] is not False else
+                          'wrong-value-after-fault') +
+                         f':{where}:computed-reference',
                          f'evaluate({addr}) = {got!r}, which it never had: '
                          f'fresh models of the {len(snapshots)} states give '
                          f'{olds!r}'[:400])
